@@ -41,6 +41,9 @@ def scripts(rng, quick):
         [Q(1, 0), ST, ST, S],
         [P, ST, Q(1, 0), S],
         [ST, S, ST],
+        # stop() while the runner is ending by itself (final statechart)
+        [Q(FIN, 0), S],
+        [Q(FIN, 0), P, S],
     ]
     if not quick:
         ops = [Q(1, 0), Q(2, 1), Q(3, 2), P, U, A(1), A(2)]
